@@ -249,6 +249,10 @@ func (c *Channel) Invoke(ctx context.Context, method string, req, resp interface
 	}
 	ctx, cancel := context.WithCancel(ctx)
 	sts := internal.UnaryServerTransportStream{Name: method}
+	// The server context takes its copy of the caller's outgoing metadata here,
+	// not on the server goroutine: this call may return (e.g. on cancellation)
+	// before that goroutine runs, and the caller may then re-use its metadata.
+	svrCtx := makeServerContext(ctx)
 
 	defer cancel()
 	ch := make(chan frame, 1)
@@ -257,7 +261,7 @@ func (c *Channel) Invoke(ctx context.Context, method string, req, resp interface
 			sts.Finish()
 			close(ch)
 		}()
-		ctx := grpc.NewContextWithServerTransportStream(makeServerContext(ctx), &sts)
+		ctx := grpc.NewContextWithServerTransportStream(svrCtx, &sts)
 		v, err := md.Handler(handler, ctx, codec, c.unaryInterceptor)
 		if h := sts.GetHeaders(); len(h) > 0 {
 			_ = writeMessage(ctx, nil, ch, frame{headers: h})
